@@ -171,6 +171,7 @@ def check(run):
     run.attempt(outfile, run, p)
     run.attempt(inplace, run, p)
     run.attempt(aligned, run, p)
+    run.attempt(detected, run, p)
     from .c02 import fuzz_shape
     fuzz_shape(run, p, 'C06-AGREE')     # the record-level fuzzy comparators use the same fuzz_down / fuzz_up as the aggregate ones
     run.rules['C06-AGREE'] += '; the record-level fuzzy comparators df_fuzzy_gt / df_fuzzy_lt have the shape of the aggregate ones (a op b or a op fuzz_down/up(b, epsilon))'
@@ -309,7 +310,8 @@ def outfile(run, p):
 
 def inplace(run, p):
     run.rule('C06-INPLACE', 'every store into the input frame (self.df[...] = / inplace=True on self.df) in a function reachable from '
-                            'detect_df is control-dependent on detect_in_place')
+                            'detect_df is control-dependent on detect_in_place; and the detection frame is built on a copy of the input '
+                            'frame\'s index (pandas shares the Index object otherwise, and naming it would rename the caller\'s)')
     seen = p.reach([p.fn('detect_df')])
     done = set()
     n = 0
@@ -342,7 +344,43 @@ def inplace(run, p):
             run.ob('C06-INPLACE', '%s::%s::%s' % (f.rel, f.short, norm(tgt)[:60]), ok,
                    'store into the caller\'s frame `%s` under [%s]' % (norm(tgt)[:60], ' & '.join(g.text() for g in ch if g.kind == 'if')),
                    fn=f, node=tgt)
-    run.floor('C06-INPLACE', n, 4)
+    # the index is part of the caller's frame too: pandas shares an Index object between frames built on it, so a frame built
+    # on df.index must be built on a copy before anything is stored into that index (its name, its names)
+    ni = 0
+    for f in p.funcs.values():
+        if f.mod.name != 'tdda.constraints.pd.constraints' or f.cls is None or f.cls.name != 'PandasConstraintDetector':
+            continue
+        nodes = list(p.own_nodes(f))
+        binds = {}
+        for x in nodes:
+            if isinstance(x, ast.Assign) and len(x.targets) == 1 and isinstance(x.targets[0], ast.Name):
+                binds.setdefault(x.targets[0].id, []).append(x.value)
+
+        def copied(e):
+            if isinstance(e, ast.Call) and isinstance(e.func, ast.Attribute) and e.func.attr in ('copy', 'deepcopy', 'rename', 'set_names'):
+                return True
+            if isinstance(e, ast.Call) and norm(e.func) in ('copy.copy', 'copy.deepcopy', 'pd.Index', 'pd.RangeIndex', 'pd.MultiIndex.from_tuples'):
+                return True
+            if isinstance(e, ast.Name) and e.id in binds:
+                return all(copied(v) for v in binds[e.id])
+            return False
+        for x in nodes:
+            if not (isinstance(x, ast.Call) and norm(x.func) in ('pd.DataFrame', 'DataFrame', 'pandas.DataFrame')):
+                continue
+            ix = next((k.value for k in x.keywords if k.arg == 'index'), None)
+            if ix is None or not any(isinstance(y, ast.Attribute) and y.attr == 'index' for y in ast.walk(ix)) and not isinstance(ix, ast.Name):
+                continue
+            ni += 1
+            own = copied(ix)
+            stores = [y for y in nodes if isinstance(y, ast.Assign) and any(isinstance(t, ast.Attribute) and t.attr in ('name', 'names') and
+                                                                            isinstance(t.value, ast.Attribute) and t.value.attr == 'index' for t in y.targets)]
+            ok = own or not stores
+            run.ob('C06-INPLACE', '%s::%s::index-of-the-detection-frame' % (f.rel, f.short), ok,
+                   'the detection frame is built on %s: %s' % (norm(ix)[:40], 'a copy of the input frame\'s index' if own else
+                                                               ('the input frame\'s own Index object, and nothing is stored into it' if ok else
+                                                                'the input frame\'s own Index object, and `%s` then renames it in the caller\'s frame as well' % norm(stores[0])[:50])),
+                   fn=f, node=stores[0] if stores and not ok else x)
+    run.floor('C06-INPLACE', n + ni, 5)
 
 
 _REINDEXING = ('reset_index', 'sort_values', 'sort_index', 'set_index', 'reindex', 'sample')
@@ -445,6 +483,41 @@ def aligned(run, p):
     run.units['row_selections_examined'] = nsel
     run.units['series_constructions_examined'] = nser
     run.floor('C06-ALIGNED', nsel, 2)
+
+
+def detected(run, p):
+    from ..pyeval import Interp, Obj, Unsupported, Raised
+    run.rule('C06-DETECTED', 'what detection produced is what detected() hands back: PandasDetection.detected(), evaluated, returns '
+                             'the detection frame whenever there is a detection - also when it holds no failing record (write_all keeps '
+                             'every record, with n_failures 0) - and None only when there is none')
+    c = p.cls('PandasDetection')
+    f = p.lookup_method(c.qn, 'detected')
+    if f is None:
+        raise AnalysisError('PandasDetection.detected vanished')
+    n = 0
+    for nfail, npass in ((0, 5), (2, 3), (5, 0), (0, 0)):
+        det = Obj(p.cls('Detection'))
+        det.attrs.update(obj='<frame>', n_passing_records=npass, n_failing_records=nfail)
+        o = Obj(c)
+        o.attrs['detection'] = det
+        try:
+            got = Interp(p).call(f, [], {}, selfobj=o)
+        except Unsupported as e:
+            raise AnalysisError('detected() is not evaluable: %s' % e)
+        except Raised as e:
+            got = 'raises %s' % e
+        n += 1
+        run.ob('C06-DETECTED', 'failing=%d,passing=%d' % (nfail, npass), got == '<frame>',
+               'a detection with %d failing and %d passing records: detected() returns %s' % (nfail, npass, 'its frame' if got == '<frame>' else repr(got)), fn=f)
+    o = Obj(c)
+    o.attrs['detection'] = None
+    try:
+        got = Interp(p).call(f, [], {}, selfobj=o)
+    except (Unsupported, Raised) as e:
+        got = 'raises %s' % e
+    n += 1
+    run.ob('C06-DETECTED', 'no-detection', got is None, 'no detection: detected() returns %r' % (got,), fn=f)
+    run.floor('C06-DETECTED', n, 5)
 
 
 def vername(run, p, km):
